@@ -51,6 +51,30 @@ func TestVerifC15(t *testing.T) {
 	for q := 0; q < hk.N(8, 40); q++ {
 		pool = append(pool, named{ref.BaseMulFast(randScalarI(rng)), "random"})
 	}
+	for _, P := range patternedPoints(rng, hk.N(6, 24)) {
+		pool = append(pool, named{P, "internal-limb-pattern-x"})
+	}
+	if sps, scls, serr := ref.SpecialPoints(); serr != nil {
+		r.Inconclusive("special-point fixture: " + serr.Error())
+		return
+	} else {
+		for i, P := range sps {
+			if i%2 == 0 || hk.Thorough() {
+				pool = append(pool, named{P, "coordinate-class:" + scls[i]})
+			}
+		}
+		// every one of them must decode, re-encode identically and be accepted by the curve test
+		for i, P := range sps {
+			enc := append([]byte{4}, append(ref.B32(P.X), ref.B32(P.Y)...)...)
+			q, err := NewSM2Point().SetBytes(enc)
+			if err != nil {
+				r.Violation("setbytes-rejects-valid-point:coordinate-class:"+scls[i], hk.D{"encoding": hk.Hex(enc), "err": err.Error()})
+			} else if !bytes.Equal(q.Bytes(), enc) || !bytes.Equal(q.Bytes_Unsafe(), enc) {
+				r.Violation("encode-decode-not-identity:coordinate-class:"+scls[i], hk.D{"encoding": hk.Hex(enc), "re-encoded": hk.Hex(q.Bytes())})
+			}
+			r.Eval("decode:coordinate-class:" + scls[i])
+		}
+	}
 
 	lambdas := func(lr *hk.RNG) *big.Int {
 		if lr.Intn(3) == 0 {
